@@ -24,6 +24,8 @@ ASSUMPTIONS = ["ABTU_min/ABTU_max/ABTU_roundup helpers compute what their names 
 RULES_DOC = dict(common.SHARED_DOC)
 RULES_DOC["R6"] = "config getters: each out-parameter of ABT_{sched,pool}_config_get is written whenever the key is found and that out-parameter is non-NULL, independent of the other out-parameter (sibling agreement between the two getters)"
 RULES_DOC["R7"] = "every load_env_<T> call whose bound is one of the ABTD_ENV_*_MAX type limits uses the limit of its own type <T> (a 64-bit setting is not clamped with the 32-bit maximum)"
+RULES_DOC["R8"] = "roundup_pow2_<T> shifts over all bits of its own type: the loop bound is 8*sizeof(T)-1 for the T it returns (a size_t value above 2^31 is not rounded with the 32-bit bound)"
+RULES_DOC["R9"] = "ABT_{sched,pool}_config_set changes the map only after the new element was built: on every path the deletion / replacement of an entry follows the successful typed construction, and an error return has not touched the map"
 RULES_DOC.update({
     "R1": "load_env_*: every return is max(min_val, min(max_val, X)), X in {parsed value, default}; parse error -> default; getenv / ABTU_ato* call sites confined",
     "R2": "rounded globals are assigned through their rounding function",
@@ -578,6 +580,53 @@ def rule_R7(P, rep):
     rep.need(n >= 8, "only %d type-limit bounds found" % n)
 
 
+def rule_R8(P, rep):
+    n = 0
+    for F in sorted(P.functions.values(), key=lambda f: (f.file, f.line)):
+        if F.file != ENV or not F.name.startswith("roundup_pow2_"):
+            continue
+        bits = {"size_t": 64, "uint64_t": 64, "uint32_t": 32, "int": 32, "unsigned int": 32}.get(F.ret.strip())
+        rep.need(bits, "%s returns %s" % (F.name, F.ret))
+        bounds = []
+        for bid, B in F.blocks.items():
+            if B.tc is None or B.tk not in ("ForStmt", "WhileStmt", "DoStmt"):
+                continue
+            aj, at = cfg.cond_atom(F, B.tc, True)
+            nd = F.nodes[F.strip(aj)]
+            if nd.get("k") == "bin" and nd["op"] in ("<", "<="):
+                cv = F.nodes[F.strip(nd["rh"])].get("cv")
+                if cv is not None:
+                    bounds.append(cv + (1 if nd["op"] == "<=" else 0))
+        n += 1
+        rep.ob("R8", "%s scans all %d bit positions of its type" % (F.name, bits), bounds == [bits - 1],
+               "loop bound(s) %s, expected %d" % (bounds, bits - 1), loc="%s:%d" % (F.file, F.line), site="%s/bits" % F.name)
+    rep.need(n >= 2, "only %d roundup_pow2 helpers" % n)
+
+
+def rule_R9(P, rep):
+    for fn, file in (("ABT_sched_config_set", "src/sched/sched_config.c"), ("ABT_pool_config_set", "src/pool/pool_config.c")):
+        F = P.fn(fn, file)
+        sel = seq.Sel(calls=lambda c: "create_element_typed" in c or c in ("ABTU_hashtable_set", "ABTU_hashtable_delete"),
+                      conds=lambda t: "create_element_typed(" in t, canon=True, locks=False)
+        n = 0
+        for toks, kind, rv, rtxt in seq.sequences(F, sel, max_len=40):
+            if kind != "ret":
+                continue
+            n += 1
+            cs = [t for t in toks if t[0] == "call"]
+            built = [i for i, t in enumerate(cs) if "create_element_typed" in t[1]]
+            muts = [i for i, t in enumerate(cs) if t[1].startswith("ABTU_hashtable_")]
+            why = []
+            if built and any(m < built[0] for m in muts):
+                why.append("the map is changed before the new element is built (a rejected set has already removed the old entry)")
+            failed = any(t[0] == "if" and "create_element_typed(" in t[1] and t[2] for t in toks)
+            if failed and muts:
+                why.append("the map is changed although building the element failed")
+            rep.ob("R9", "%s path [%s]" % (fn, show(toks)[:120]), not why, "; ".join(why), loc="%s:%d" % (F.file, F.line),
+                   site="%s/%s" % (fn, show(cs)[:100]))
+        rep.need(n >= 2, "%s: %d paths" % (fn, n))
+
+
 def run(P, rep, tier):
     rule_R1(P, rep)
     rule_R2(P, rep)
@@ -585,3 +634,5 @@ def run(P, rep, tier):
     rule_R5(P, rep)
     rule_R6(P, rep)
     rule_R7(P, rep)
+    rule_R8(P, rep)
+    rule_R9(P, rep)
